@@ -96,7 +96,24 @@ func c02shortread(c *core.Ctx, r *core.Reporter) {
 						}
 						return x
 					}
-					return root(a) == root(buf)
+					if root(a) == root(buf) {
+						return true
+					}
+					// two loads of one field (r.line passed to Read, len(r.line) compared)
+					fieldOf := func(x ssa.Value) (ssa.Value, int, bool) {
+						u, ok := root(x).(*ssa.UnOp)
+						if !ok {
+							return nil, 0, false
+						}
+						fa, ok := u.X.(*ssa.FieldAddr)
+						if !ok {
+							return nil, 0, false
+						}
+						return fa.X, fa.Field, true
+					}
+					b1, f1, ok1 := fieldOf(a)
+					b2, f2, ok2 := fieldOf(buf)
+					return ok1 && ok2 && b1 == b2 && f1 == f2
 				}
 				bad := ""
 				for v := range counts {
